@@ -227,3 +227,36 @@ def fast_trunk_net_equals_the_plain_trunk_net_end_to_end(S):
         S.ensure("plain-network-block-b-n-depends-on-location-b-n-only", z3.And([zreal(oa.at([(ia,), (ja,), (c,), (k,)])) == zreal(ob.at([(ib,), (jb,), (c,), (k,)])) for c in range(2) for k in range(2)]), rng + [same_loc])
     else:
         S.ensure("plain-network-feature-tensor-has-rank-4", False)
+
+
+@scenario("C09", [M + "branchnets.FCBranchNet.__init__", M + "branchnets.FCBranchNet.finalize", M + "branchnets.FCBranchNet.forward", BRANCH + "._reshape_multidimensional_output"], configs=["ndisc=2,hidden=(2,),neurons=4,d=2"], bounded="2 discretisation points of a scalar input function, one hidden layer of width 2, 4 output neurons, output dimension 2; number of functions, weights and values symbolic")
+def fc_branch_net_maps_function_b_to_feature_block_b(S):
+    """FCBranchNet.forward: the discretised input functions [B, ndisc, 1] are flattened per function, sent through the
+    fully connected network, and stored as current_out[b, c, k] = feature c*q + k of function b: block b depends on
+    function b alone, and the layout is the one the DeepONet inner product assumes"""
+    from tpv.absdom import abstract_domain
+
+    I = S.I
+    B, B2 = S.int("B", 1), S.int("B2", 1)
+    xs = S.new(RN, "x", 1)
+    fsp = S.new(FS, abstract_domain(S, "Din", xs).obj, S.new(RN, "f", 1))
+    disc = AbstractSampler(S, "disc", xs, 2)
+    br = S.new(M + "branchnets.FCBranchNet", fsp, disc.obj, hidden=(2,))
+    S.method(br, "finalize", S.new(RN, "u", 2), 4)
+    FA, FB = S.tensor("FA", [B, 2, 1]), S.tensor("FB", [B2, 2, 1])
+    S.method(br, "forward", S.new(POINTS, FA, S.new(RN, "f", 1)))
+    oa = S.getattr(br, "current_out").val
+    S.method(br, "forward", S.new(POINTS, FB, S.new(RN, "f", 1)))
+    ob = S.getattr(br, "current_out").val
+    ok = oa.rank == 3 and ob.rank == 3 and [d.concrete() for d in oa.shape[1:]] == [2, 2]
+    S.ensure("feature-tensor-functions-components-neurons", ok and oa.shape[0].size_term() == zint(B) and ob.shape[0].size_term() == zint(B2))
+    if not ok:
+        return
+    ia, ib = z3.Int("ia"), z3.Int("ib")
+    rng = [ia >= 0, ia < zint(B), ib >= 0, ib < zint(B2)]
+    same_fn = z3.And([zreal(FA.val.at([(ia,), (j,), ()])) == zreal(FB.val.at([(ib,), (j,), ()])) for j in range(2)])
+    S.ensure("block-b-depends-on-function-b-only", z3.And([zreal(oa.at([(ia,), (c,), (k,)])) == zreal(ob.at([(ib,), (c,), (k,)])) for c in range(2) for k in range(2)]), rng + [same_fn])
+    # layout: run the network by hand on the flattened functions and compare feature c*q + k
+    flat = Tensor(__import__("tpv.tshape", fromlist=["x"]).reshape(I, FA.val, [-1, 2]))
+    feats = S.method(S.getattr(br, "sequential"), "__call__", flat).val
+    S.forall("current-out-b-c-k-is-feature-c-q-plus-k-of-function-b", Tensor(oa), lambda q: z3.And([z3.Implies(z3.And(zint(q[1][0]) == c, zint(q[2][0]) == k), zreal(oa.at(q)) == zreal(feats.at([q[0], (c * 2 + k,)]))) for c in range(2) for k in range(2)]))
